@@ -170,6 +170,13 @@ def r142(ctx):
     for n in walk_local(fd):
         if isinstance(n, ast.Assign) and isinstance(n.value, ast.List) and isinstance(n.targets[0], ast.Name) and n.targets[0].id in appended:
             lead = len(n.value.elts)
+    if lead == 0:
+        # `<row format>.format(step, *orderdata)`: the positional arguments before the starred order parameters lead the row
+        for c_ in walk_local(fd):
+            if isinstance(c_, ast.Call) and isinstance(c_.func, ast.Attribute) and c_.func.attr == "format" and any(isinstance(a_, ast.Starred) for a_ in c_.args):
+                lead = next(i_ for i_, a_ in enumerate(c_.args) if isinstance(a_, ast.Starred))
+    if lead == 0:
+        raise AnalysisError("R-14.2: how OrderFormatter.format_data lays out a row was not recognised (cannot decide)")
     lp = tree.func(PATH, "load_path")
     drop = None
     for n in walk_local(lp):
@@ -584,6 +591,17 @@ def r1413(ctx):
                 joins = [d for d in stores if d.kind == "assign" and isinstance(d.value, ast.Call) and isinstance(d.value.func, ast.Attribute) and d.value.func.attr == "join"]
                 if len(stores) == 1 and joins:
                     v = joins[0].value
+            if isinstance(v, ast.Call) and isinstance(v.func, ast.Attribute) and v.func.attr == "format":
+                # `<row format>.format(step, *values)`: the separator is part of the row format
+                recv = v.func.value
+                if isinstance(recv, ast.Name):
+                    recv, _ = deref(fl, recv, fl.cfg.node_of(r))
+                elif isinstance(recv, ast.Attribute):
+                    st_ = [x for x in walk_local(f) if isinstance(x, ast.Assign) and any(ast.unparse(t_) == ast.unparse(recv) for t_ in x.targets)]
+                    if st_:
+                        recv = st_[-1].value
+                if isinstance(recv, ast.Call) and isinstance(recv.func, ast.Attribute) and recv.func.attr == "join":
+                    v = recv
             if isinstance(v, ast.Call) and isinstance(v.func, ast.Attribute) and v.func.attr == "join" and isinstance(v.func.value, ast.Constant) and isinstance(v.func.value.value, str):
                 if v.func.value.value and v.func.value.value.strip() == "":
                     ctx.ok(rid, r, f"{cname}.{fname}: the formatted fields are joined with the separator {v.func.value.value!r}")
@@ -606,6 +624,27 @@ def r1413(ctx):
             raise AnalysisError(f"R-14.13: how {cname}.{fname} combines its fields (`{short(v, 50)}`) is not one of the modelled forms (cannot decide)")
 
 
+def r1415(ctx):
+    """A row is formatted from the data of that row only. The formatter objects live as long as
+    the process (class-level PathStorage), so anything format_data / apply_format stores on
+    `self` and reads back - a row format memoised from the first row - is shared by every path
+    stored later: a path with more order parameters than the first one silently loses the extra
+    columns (str.format ignores surplus arguments), one with fewer raises."""
+    rid = "R-14.15"
+    tree = ctx.tree
+    for cname, fname in (("OrderFormatter", "format_data"), ("EnergyFormatter", "apply_format")):
+        cls = tree.cls(FORMATTER, cname)
+        f = next((x for x in cls.body if isinstance(x, FUNC) and x.name == fname), None)
+        if f is None:
+            raise AnalysisError(f"R-14.15: {cname}.{fname} not found")
+        stored = [st for st in walk_local(f) if isinstance(st, (ast.Assign, ast.AugAssign, ast.AnnAssign)) for t in (st.targets if isinstance(st, ast.Assign) else [st.target]) if isinstance(t, ast.Attribute) and isinstance(t.value, ast.Name) and t.value.id == "self"]
+        if stored:
+            t = stored[0].targets[0] if isinstance(stored[0], ast.Assign) else stored[0].target
+            ctx.bad(rid, stored[0], f"{cname}.{fname} keeps state between rows (`{short(stored[0], 50)}`): the formatter is shared by all paths of the process, so what the first row fixed (the number of columns of the row format) is applied to every later path - extra order parameters of a later path are silently dropped from order.txt, and load_path returns fewer columns than the accepted path had", construct=f"{cname}.{fname}: state on self.{t.attr}")
+        else:
+            ctx.ok(rid, f, f"{cname}.{fname} is a function of its arguments and class constants only")
+
+
 def run(ctx):
     ctx.rule("R-14.5", "path-file writers write values as they are: 0.0 is never mistaken for a missing value", floor=1)
     ctx.rule("R-14.7", "the text files of a stored path are opened for writing from scratch (load_path reads the first block only)", floor=1)
@@ -620,6 +659,8 @@ def run(ctx):
     ctx.attempt(_c06.r64, _RP14(ctx, "R-14.12", " (entries inherited from another run name `load/<n>/accepted/<file>` relative to the working directory: the next replacement deletes the files of a same-numbered live path)"))
     ctx.rule("R-14.13", "rows of order.txt / energy.txt are whitespace separated by construction (explicit separator between the formatted fields; a width is only a minimum)", floor=2)
     ctx.attempt(r1413, ctx)
+    ctx.rule("R-14.15", "a row of order.txt / energy.txt is formatted from that row's data only (no state kept on the shared formatter between rows)", floor=2)
+    ctx.attempt(r1415, ctx)
     ctx.attempt(r141, ctx)
     ctx.attempt(r142, ctx)
     ctx.attempt(r143, ctx)
@@ -640,6 +681,8 @@ def run(ctx):
 
 
 VARIANTS = [
+    B("c14-order-row-format-memoised-on-the-formatter", FORMATTER, "        towrite = [self.ORDER_FMT[0].format(step)]\n        for orderp in orderdata:\n            towrite.append(self.ORDER_FMT[1].format(orderp))\n        out = \" \".join(towrite)\n        return out\n", "        if getattr(self, \"_row_fmt\", None) is None:\n            self._row_fmt = \" \".join([self.ORDER_FMT[0]] + len(orderdata) * [self.ORDER_FMT[1]])\n        return self._row_fmt.format(step, *orderdata)\n", "R-14.15", control=True, why="seeded C14_m"),
+    K("c14-keep-order-row-format-per-call", FORMATTER, "        towrite = [self.ORDER_FMT[0].format(step)]\n        for orderp in orderdata:\n            towrite.append(self.ORDER_FMT[1].format(orderp))\n        out = \" \".join(towrite)\n        return out\n", "        row_fmt = \" \".join([self.ORDER_FMT[0]] + len(orderdata) * [self.ORDER_FMT[1]])\n        return row_fmt.format(step, *orderdata)\n"),
     B("c14-energy-row-separator-folded-into-width", FORMATTER, '    ENERGY_FMT = ["{:>10d}"] + 5 * ["{:>14.6f}"]', '    ENERGY_FMT = ["{:>10d}"] + 5 * ["{:>15.6f}"]', "R-14.13", control=True, also=[(FORMATTER, '        return " ".join(towrite)', '        return "".join(towrite)')], why="seeded C14_k"),
     K("c14-keep-energy-row-separator-local", FORMATTER, '        return " ".join(towrite)', '        row = " ".join(towrite)\n        return row'),
     B("c14-delete-queue-shared-between-instances", REPEX, "    traj_data: dict = {}\n", "    traj_data: dict = {}\n    pn_olds: dict = {}\n", "R-14.12", control=True, also=[(REPEX, "        self.pn_olds = {}\n", "")], why="seeded C14_j"),
